@@ -624,9 +624,14 @@ pub fn scan_file(src: &str) -> CrateScan {
         i += 1;
     }
     for r in use_roots {
-        if !NOT_CRATES.contains(&r.as_str()) {
-            scan.roots.entry(r.clone()).or_insert_with(|| format!("use {r}::.."));
+        if NOT_CRATES.contains(&r.as_str()) {
+            continue;
         }
+        // `use Kind::*` (a local enum) and `use mpsc::Sender` after `use tokio::sync::mpsc` are not crate roots
+        if !r.chars().next().is_some_and(|c| c.is_ascii_lowercase() || c == '_') || scan.use_names.contains(&r) {
+            continue;
+        }
+        scan.roots.entry(r.clone()).or_insert_with(|| format!("use {r}::.."));
     }
     for (r, ctx) in path_roots {
         if NOT_CRATES.contains(&r.as_str()) {
